@@ -8,7 +8,8 @@
 EXTENDS AdjInAp, SpeakerDom, Json
 
 CONSTANTS MaxSteps, Codes, LocalCodes,
-          FloodEnds   \* how a flood may be cut off: subset of {"Down", "DelPeer"}
+          FloodEnds,  \* how a flood may be cut off: subset of {"Down", "DelPeer"}
+          FloodOdds   \* an enabled flood is offered one time in FloodOdds
 
 VARIABLES hist, done
 gvars == <<up, inr, loc, gone, hist, done>>
@@ -52,14 +53,17 @@ GBurst(p) == /\ up[p]
                   Apply(MsgRec(p, W, K \ W, r))
 
 (* several UPDATEs written back to back, then the session is closed / the neighbour removed while
-   the speaker may still be working on them *)
+   the speaker may still be working on them.  hold: the harness parks the last UPDATE between the
+   neighbour's receive loop and its handler until the session has been ended (already read, not yet
+   handled - made exact); otherwise the interleaving is whatever the scheduler gives *)
 FloodMsgs(p) == [j \in 1..RandomElement(2..4) |->
                    LET k == RandKey(p) IN
                      IF RandomElement(1..4) = 1 THEN [wd |-> <<k>>, ann |-> <<>>, r |-> NoRoute]
                      ELSE [wd |-> <<>>, ann |-> <<k>>, r |-> Rt(p)]]
-GFlood(p) == /\ up[p] /\ FloodEnds # {} /\ RandomElement(1..3) = 1
+GFlood(p) == /\ up[p] /\ FloodEnds # {} /\ RandomElement(1..FloodOdds) = 1
              /\ \E m \in {FloodMsgs(p)} : \E e \in {RandomElement(FloodEnds)} :
-                  Apply([ev |-> "Flood", p |-> p, msgs |-> m, end |-> e])
+                \E h \in {RandomElement(BOOLEAN)} :
+                  Apply([ev |-> "Flood", p |-> p, msgs |-> m, end |-> e, hold |-> h])
 
 GUp(p)      == Apply([ev |-> "Up", p |-> p])
 GDown(p)    == RandomElement(1..4) = 1 /\ Apply([ev |-> "Down", p |-> p])
